@@ -103,6 +103,17 @@ pub fn main() -> i32 {
             }
             0
         }
+        Some("c05-render") => {
+            let s = std::fs::read_to_string(&args[2]).unwrap();
+            let v: Value = serde_json::from_str(&s).unwrap();
+            let input = serde_json::from_value(v["input"].clone()).unwrap();
+            let (m, _) = checks::c05::render(&input);
+            println!("{}", hex(&m));
+            println!("walk: {:?}", crate::refmodel::walk(&m).map(|w| w.records.iter().map(|r| (r.off, r.rtype, r.rdlen, r.rdata_off, r.end)).collect::<Vec<_>>()));
+            println!("ref: {:?}", crate::refmodel::decode_message(&m).map(|x| x.1));
+            println!("lib: {:?}", simple_dns::Packet::parse(&m).map(|p| crate::bridge::observe(&p)));
+            0
+        }
         Some("corpus") => {
             let out = args.get(2).cloned().unwrap_or_else(|| "/tmp/vp-corpus".into());
             checks::emit_corpus(Path::new(&out));
